@@ -107,6 +107,11 @@ def with_restarts(case, rng, mode):
     for _ in range(n):
         pos = rng.randrange(0, len(sched) + 1)
         sched.insert(pos, ["R", mode])
+        if rng.random() < 0.5 and mode in ("intact", "clean"):
+            # the application looked at CloudSync.busy just before it stopped the engine (busy takes an event from each
+            # provider into memory).  Only with a usable cursor: without one the statement promises creations and
+            # modifications only, and the event taken into memory may be a deletion
+            sched.insert(pos, ["B"])
     case = dict(case)
     case["sched"] = sched
     case["rmode"] = mode
@@ -217,13 +222,13 @@ def make(seed, i, flavours):
         return outage_case(seed, i, flavours, rng)
     else:
         case = F.make_case(seed, PROP, i, flavours=flavours)
-        mode = ("intact", "nocursor", "badcursor", "intact")[(i // 4) % 4]
+        mode = ("intact", "nocursor", "badcursor", "clean")[(i // 4) % 4]     # clean = final stop with cleanup hooks, intact storage
         if case["family"].startswith("REUSE"):
             # with a lost cursor the engine cannot learn of deletions (the walk reports what exists); taking a vacated name
             # again, possibly with the other type, is then a name clash with the peer's stale object - outside the
             # statement's walk-fallback clause (which speaks of creations and modifications).  Name reuse is exercised
             # across restarts with the cursor intact.
-            mode = "intact"
+            mode = ("intact", "clean")[(i // 7) % 2]
     return with_restarts(case, rng, mode)
 
 
